@@ -399,7 +399,7 @@ def extra_run(tier, seed_value, findings):
     """Every malformation kind x variant 0..5 x positions for every class on a fixed valid sample."""
     import multiprocessing
 
-    positions = (0, 23) if tier == "quick" else (0, 7, 23, 41)
+    positions = (23,) if tier == "quick" else (0, 7, 23, 41)
     jobs = [(cls, positions) for cls in sorted(set(CLASSES))]
     with multiprocessing.get_context("fork").Pool(len(jobs)) as pool:
         results = pool.map(_matrix_for_class, jobs)
